@@ -59,7 +59,11 @@ def main():
             "add_only": True,
         },
         "engines": [{"name": "tlc", "path": "/usr/local/bin/tlc", "serves_properties": served,
-                     "kind_free_text": "TLC 1.8.0 explicit-state model checker: exhaustive checking of specs/*.tla, behaviour generation (Gen_*), trace validation (Trace_*) of events recorded from the real dnspython code"}],
+                     "kind_free_text": "TLC 1.8.0 explicit-state model checker: exhaustive checking of specs/*.tla, behaviour generation (Gen_*), trace validation (Trace_*) of events recorded from the real dnspython code"},
+                    {"name": "tlapm+apalache (growth check X04)", "path": "/verif/checks/x04.py", "serves_properties": ["C11", "C12"],
+                     "kind_free_text": "TLAPS proofs (2141 obligations) and Apalache inductive checks of the abstract writer-admission and version-retention specifications for ANY number of writers/readers/versions, TLC refinement from the bounded models the C11/C12 conformance checks use; ./check X04 --tier quick re-checks the stored proof fingerprints.  Not a claimed check: it strengthens the design half of C11/C12 (DESIGN.md 9.8)"},
+                    {"name": "growth checks X01-X03, X05-X09 (same TLC pipeline)", "path": "/verif/checks", "serves_properties": [],
+                     "kind_free_text": "Specifications beyond the listed properties, same contract (./check Xnn --tier quick|thorough, evidence/Xnn.json, notes/Xnn.md): X01 address codecs and reverse names, X02 TTL/range/serial arithmetic, X03 NameDict and processing order, X05 zone-file reader state machine ($ORIGIN/$TTL/$INCLUDE/$GENERATE, inheritance), X06 RFC 2136 update messages and message header/EDNS state, X07 the tokenizer automaton, X08 the zone's direct node API and CNAME exclusivity, X09 registries and header bit fields.  Their findings are in known_findings.json under property Xnn (DESIGN.md 9.8)"}],
         "checks": checks,
         "not_applicable": na,
         "notes": "Every claimed property is decided by an explicit TLA+ specification under specs/: TLC checks the spec, generates behaviours that drivers/ replay on the code in /repo's working tree, and validates the recorded traces (one TLC run per shard). ./check <id> --tier quick|thorough [--replay file]. Known findings: known_findings.json.",
